@@ -413,9 +413,12 @@ def _d2(chk, fb):
         while n["k"] == "DeclRefExpr" and n["decl"]["kind"] == "local" and n["decl"]["id"] in sub and hops < 4:
             n = strip(sub[n["decl"]["id"]])
             hops += 1
-        if n["k"] == "BinaryOperator" and n["op"] in ("+", "-", "*"):
+        if n["k"] == "BinaryOperator" and n["op"] in ("+", "-", "*", "/"):
             a, b = tr(f, kids(n)[0]), tr(f, kids(n)[1])
-            return {"+": a + b, "-": a - b, "*": a * b}[n["op"]]
+            return {"+": a + b, "-": a - b, "*": a * b, "/": a / b}[n["op"]]
+        if n["k"] == "UnaryOperator" and n["op"] in ("-", "+") and not n.get("postfix"):
+            a = tr(f, kids(n)[0])
+            return -a if n["op"] == "-" else a
         if n["k"] in ("IntegerLiteral", "FloatingLiteral"):
             return sp.nsimplify(n["val"])
         if is_call(n):
